@@ -193,12 +193,33 @@ def direct_state_circuit(rng):
     return c, None
 
 
+def gap_circuit(rng):
+    """Directed shape: a combinational DAG of multi-output cells (unresolved library cells such as half / full adders) whose OUTPUT pin
+    lists have gaps -- outs[0] unconnected while a higher pin is wired -- and whose input pins may be left open as well; every net goes
+    through a fork.  Purely combinational, so fanin must be exactly the transitive fan-in."""
+    from kyupy.circuit import Circuit, Node, Line
+    c = Circuit('gap')
+    nets = []
+    for i in range(rng.randint(2, 4)):
+        pi = Node(c, f'i{i}', 'input'); c.io_nodes.append(pi)
+        f = Node(c, f'i{i}', '__fork__'); Line(c, pi, f); nets.append(f)
+    for g in range(rng.randint(3, 9)):
+        cell = Node(c, f'u{g}', rng.choice(['HAX1', 'FAX1', 'ADDHX1', 'CELL3']))
+        for p in sorted(rng.sample([0, 1, 2], rng.randint(1, 3))):
+            Line(c, rng.choice(nets), (cell, p))
+        for q in sorted(rng.sample([0, 1, 2], rng.choice([1, 1, 2]))):
+            f = Node(c, f'n{g}_{q}', '__fork__'); Line(c, (cell, q), f); nets.append(f)
+    for i, f in enumerate(rng.sample(nets, min(len(nets), rng.randint(1, 3)))):
+        po = Node(c, f'o{i}', 'output'); c.io_nodes.append(po); Line(c, f, po)
+    return c, None
+
+
 def run(ck):
     ck.prove('C17', THEOREMS)
     rng = random.Random(ck.seed * 7919 + 17)
     fails, cases, meta = [], [], []
     for i in range(ck.scale(120, 3000)):
-        c, a = direct_state_circuit(rng) if i % 5 == 4 else cg.gen_circuit(rng)
+        c, a = direct_state_circuit(rng) if i % 5 == 4 else gap_circuit(rng) if i % 5 == 2 else cg.gen_circuit(rng)
         k = rng.randint(1, 3)
         origins = sorted(rng.sample(range(len(c.nodes)), min(k, len(c.nodes))))
         desc = {'circuit': cg.describe(c), 'origins': origins}
